@@ -70,6 +70,13 @@ def run_case(case: dict) -> dict:
                            "seed": rng.randrange(1 << 30)}
             else:
                 perturb = {"delay": rng.randrange(1 << 30)}
+            if rng.random() < 0.04 and n_shards > 4:
+                # a consumer that stalls for a few seconds while the workers have nothing left to do
+                # (more shards than the pipeline keeps in flight)
+                par = 1
+                shuffle = max(shuffle, 2)
+                perturb = {"stall": 2.6}
+                obs["stalled_consumer_passes"] += 1
             label = f"{iface} split={split} shuffle={shuffle} par={par} process={process} {perturb}"
             try:
                 ids, problems, observation = _iter.run_pass(dataset, fmt, iface, split, work, shuffle=shuffle,
